@@ -443,6 +443,26 @@ def rand_popts(rng):
                 newlinechar=rng.choice(["\n", "\n", "\r\n"]), end_comment=rng.random() < 0.3, align_values=rng.random() < 0.3)
 
 
+def include_check(sub):
+    """open(path) and load(file object) on a file with a relative INCLUDE (fn comes from fp.name)."""
+    import mappyfile
+    os.makedirs(sub, exist_ok=True)
+    open(os.path.join(sub, "main.map"), "w", encoding="utf-8").write('MAP\n NAME "é"\n INCLUDE "part.map"\nEND\n')
+    open(os.path.join(sub, "part.map"), "w", encoding="utf-8").write('LAYER\n NAME "inc\U0001F600"\n TYPE POINT\nEND\n')
+    try:
+        d1 = mappyfile.open(os.path.join(sub, "main.map"))
+    except Exception as ex:
+        return "open(path) raises %s on a file with a relative INCLUDE" % type(ex).__name__
+    try:
+        with open(os.path.join(sub, "main.map"), encoding="utf-8") as fp:
+            d2 = mappyfile.load(fp)
+    except Exception as ex:
+        return "load(file object) raises %s on a file with a relative INCLUDE that open(path) reads (%s)" % (type(ex).__name__, str(ex)[:120])
+    if d1 != d2 or d1["layers"][0]["name"] != "inc\U0001F600":
+        return "open(path) and load(file object) differ on a file with a relative INCLUDE"
+    return None
+
+
 def hunt_docs(ctx, rng, tmp):
     import mappyfile
     cases = []
@@ -470,15 +490,11 @@ def hunt_docs(ctx, rng, tmp):
             ctx.violation(fp, what + " | document: %r" % text[:200],
                           {"kind": "doc", "text": text, "vals": [[list(p), v] for p, v in vals], "lopts": lo, "popts": po})
     # INCLUDE: open(path) and load(file object) resolve relative names the same way (fn taken from fp.name)
-    sub = os.path.join(tmp, "incdir"); os.makedirs(sub, exist_ok=True)
-    open(os.path.join(sub, "main.map"), "w", encoding="utf-8").write('MAP\n NAME "é"\n INCLUDE "part.map"\nEND\n')
-    open(os.path.join(sub, "part.map"), "w", encoding="utf-8").write('LAYER\n NAME "inc\U0001F600"\n TYPE POINT\nEND\n')
-    d1 = mappyfile.open(os.path.join(sub, "main.map"))
-    with open(os.path.join(sub, "main.map"), encoding="utf-8") as fp:
-        d2 = mappyfile.load(fp)
+    sub = os.path.join(tmp, "incdir")
     ctx.note_case("doc-include")
-    if d1 != d2 or d1["layers"][0]["name"] != "inc\U0001F600":
-        ctx.violation("loaders-disagree:include", "open(path) and load(fp) differ on a file with a relative INCLUDE", {"kind": "include"})
+    r = include_check(sub)
+    if r is not None:
+        ctx.violation("loaders-disagree:include", r, {"kind": "include"})
     ctx.count("document_cases", len(cases) + 1)
     ctx.sample({"document": cases[-1][0][:160], "load_options": cases[-1][2], "print_options": cases[-1][3]})
 
@@ -1014,6 +1030,10 @@ def replay(ctx, body):
             d = write_format_inputs(tmp)
             res = format_once(d, r["input"], r["options"], "r")
             print("replay: format", "DIFFERS: %s" % res if res else "agrees")
+            return 1 if res else 0
+        if kind == "include":
+            res = include_check(os.path.join(tmp, "incdir"))
+            print("replay: include", "FAILS: %s" % res if res else "agrees")
             return 1 if res else 0
         if kind == "schema":
             res = schema_once(tmp, r["version"])
